@@ -580,6 +580,41 @@ impl<'tcx> Cx<'tcx> {
             blocks.push(self.block(did, body, id.index(), bb));
         }
         v.push(("blocks", J::Arr(blocks)));
+        // promoted constants (e.g. `&"any"` compared against a String): constant operands of each promoted body
+        let mut proms = Vec::new();
+        if matches!(tcx.def_kind(did), DefKind::Fn | DefKind::AssocFn | DefKind::Closure) {
+            if let Some(ldid) = did.as_local() {
+                let pm = tcx.promoted_mir(ldid.to_def_id());
+                for pbody in pm.iter() {
+                    let mut consts = Vec::new();
+                    for bb in pbody.basic_blocks.iter() {
+                        for st in &bb.statements {
+                            if let StatementKind::Assign(b) = &st.kind {
+                                let (_, r) = &**b;
+                                let mut ops: Vec<&Operand<'tcx>> = Vec::new();
+                                match r {
+                                    Rvalue::Use(o, _) => ops.push(o),
+                                    Rvalue::Aggregate(_, os) => {
+                                        for o in os.iter() {
+                                            ops.push(o);
+                                        }
+                                    }
+                                    Rvalue::Cast(_, o, _) => ops.push(o),
+                                    _ => {}
+                                }
+                                for o in ops {
+                                    if let Operand::Constant(c) = o {
+                                        consts.push(s(with_no_trimmed_paths!(format!("{}", c.const_))));
+                                    }
+                                }
+                            }
+                        }
+                    }
+                    proms.push(J::Arr(consts));
+                }
+            }
+        }
+        v.push(("promoted", J::Arr(proms)));
         J::Obj(v)
     }
 
